@@ -663,6 +663,18 @@ V({
     "trusted": ["chalk-ir Substitution (abstract)", "builtin_traits::{last_field_of_struct, needs_impl_for_tys}"],
 })
 
+# -------------------------------------------------------------------------- V30
+V({
+    "id": "V30",
+    "title": "ucanon_leaves: UMapToCanonical::{fold_free_placeholder_ty, fold_free_placeholder_lifetime, fold_free_placeholder_const, forbid_inference_vars, interner}, UMapFromCanonical::{the same five} (chalk-solve/src/infer/ucanonicalize.rs)",
+    "template": "v30_ucanon_leaves.rs",
+    "assumptions": [
+        "V30: UniverseMap is abstract with the two maps as uninterpreted functions (their laws: unit K8 on the real code); PlaceholderIndex casts are constructors; the fold of a constant's type through `as_dyn` is an uninterpreted function (the trait object is an opaque type)",
+        "V30: a callback that an impl does not override is checked against the trait's default (chalk-ir/src/fold.rs: keeps the placeholder as it is; proved by V16), through a stand-in supplied by the template (`ifabsent=block:`), and stated as such in the evidence",
+    ],
+    "trusted": ["chalk-ir fold driver", "UniverseMap (abstract; K8)"],
+})
+
 # ===========================================================================
 GLOBAL_ASSUMPTIONS = [
     "soundness of rustc+Kani's model of core/alloc and of CBMC; soundness of Verus and Z3",
